@@ -1,5 +1,6 @@
 """C20 (engine CL) - see RULE."""
 from vlib.engines import cl
+from vlib import tracefuzz
 from vlib.engines.base import drive, run_trace
 
 PROP = "C20"
@@ -32,12 +33,14 @@ class Eng(cl.CLEngine):
 
 def shard(ctx):
     drive(ctx, Eng, ctx.n(16 * 250, 16 * 6000), min_steps=8, max_steps=70, props={"C20"})
+    # coverage-guided trace search (atheris driving the same Hypothesis driver, fuzz/traces.py)
+    tracefuzz.run(ctx, "c20", 120 if ctx.tier == "quick" else 6000, nshards=2 if ctx.tier == "quick" else 4)
 
 
 def replay(case, ctx):
     run_trace(Eng, case, ctx, props={"C20"})
 
-TECHNIQUE = "stateful property-based testing: close() drawn at any step of a client trace (bootstrapping, connecting, backing off, requests in flight on several brokers, brokers being closed by a refresh), then every ordering of connectionLost notifications and late events"
+TECHNIQUE = "stateful property-based testing: close() drawn at any step of a client trace (bootstrapping, connecting, backing off, requests in flight on several brokers, brokers being closed by a refresh), then every ordering of connectionLost notifications and late events; plus coverage-guided fuzzing of the same trace driver (atheris/libFuzzer mutating Hypothesis' choice sequence; fuzz/traces.py)"
 RULE = (
     "engine CL; close() at a generated step; oracle: immediately after close() returns every pending call has failed, every later call fails, no connection "
     "attempt and no write happens afterwards, every connection open at close is closed by the client and the close Deferred fires exactly once in the step "
